@@ -83,7 +83,7 @@ pub fn miri_main(file: &str, shard: (u64, u64)) -> i32 {
 
 fn run_miri_stage(id: &str, stride: usize) -> PostRun {
     use std::process::Command;
-    let exe = std::env::current_exe().unwrap_or_default();
+    let exe = own_exe();
     // 1. case list, natively
     let list = Command::new(&exe).args(["miri-cases", id, &stride.to_string()]).output();
     let list = match list {
@@ -103,7 +103,7 @@ fn run_miri_stage(id: &str, stride: usize) -> PostRun {
 pub fn run_miri_list(id: &str, list: String, what: &str) -> PostRun {
     use std::process::{Command, Stdio};
     let mut p = PostRun::default();
-    let exe = std::env::current_exe().unwrap_or_default();
+    let exe = own_exe();
     let src = std::env::var("EPMC_SRC_DIR").unwrap_or_else(|_| format!("{}/epmc", verif_dir()));
     let tdir = exe.parent().and_then(|d| d.parent()).map(|d| d.to_path_buf()).unwrap_or_else(|| "/verif/target".into());
     let target = tdir.join("miri");
